@@ -837,3 +837,51 @@ func (g *Gen) metaReadThenWriteProgram() *GProgram {
 	}
 	return g.prog
 }
+
+// zeroShare: an allotment (source or destination side) with a share of zero - 0%, 0/n - among the
+// FIRST clauses and an amount that leaves units over: the leftover units go to the earliest clauses
+// whatever their portion, so the zero share receives / pays a unit and its account matters.
+func (g *Gen) zeroShareProgram() *GProgram {
+	asset := "USD"
+	g.asset = asset
+	g.smallBalances([]string{"a", "b", "c"}, asset, 40)
+	for _, a := range []string{"a", "b", "c"} {
+		if g.bal[a][asset].Sign() <= 0 {
+			g.bal[a][asset] = bi(int64(1 + g.r.Intn(20)))
+		}
+	}
+	den := int64(3 + g.r.Intn(5))
+	p1 := int64(1 + g.r.Intn(int(den)-1))
+	zero := g.ratio(bi(0), bi(den))
+	if g.r.Chance(1, 2) {
+		zero = &GExpr{Kind: XRatio, Text: "0%", Num: bi(0), Den: bi(1)}
+	}
+	als := []*GAllot{{Kind: AlRatio, E: zero}, {Kind: AlRatio, E: g.ratio(bi(p1), bi(den))}, {Kind: AlRatio, E: g.ratio(bi(den-p1), bi(den))}}
+	if g.r.Chance(1, 3) {
+		als[2] = &GAllot{Kind: AlRemaining}
+	}
+	if g.r.Chance(1, 4) {
+		als[0], als[1] = als[1], als[0]
+	}
+	n := bi(int64(1 + g.r.Intn(30)))
+	st := &GStmt{Kind: StSend, Sent: &GSent{E: lit(asset, n)}}
+	names := []string{"a", "b", "c"}
+	if g.r.Chance(2, 3) {
+		src := &GSource{Kind: SrcAllot}
+		for i, al := range als {
+			src.Items = append(src.Items, &GSrcItem{Allot: al, From: srcAcct(names[i])})
+		}
+		st.Src, st.Dst = src, dstAcct("d")
+	} else {
+		dst := &GDest{Kind: DstAllot}
+		for i, al := range als {
+			dst.Items = append(dst.Items, &GDestItem{Allot: al, To: &GKod{To: dstAcct(names[i])}})
+		}
+		st.Src, st.Dst = srcAcct("world"), dst
+	}
+	g.prog.Stmts = append(g.prog.Stmts, st)
+	if g.r.Chance(1, 2) {
+		g.prog.Stmts = append(g.prog.Stmts, &GStmt{Kind: StSend, Sent: &GSent{E: lit(asset, bi(int64(g.r.Intn(10))))}, Src: srcAcct("a"), Dst: dstAcct("e")})
+	}
+	return g.prog
+}
